@@ -138,6 +138,14 @@ func c17Gen(c *core.Ctx) {
 		{"a c", map[string]string{"a": "b c ", "b": "echo ", "c": "X"}, "echo X X"},
 		{"a c", map[string]string{"a": "b ", "b": "echo", "c": "X"}, "echo X"},
 		{"a c d", map[string]string{"a": "b ", "b": "e ", "e": "echo", "c": "X ", "d": "Y"}, "echo X Y"},
+		// command position inside a command substitution
+		{"echo $(foo)", map[string]string{"foo": "echo hi"}, "echo $(echo hi)"},
+		{"echo `foo`", map[string]string{"foo": "echo hi"}, "echo `echo hi`"},
+		{"echo \"$(foo; foo)\"", map[string]string{"foo": "echo hi"}, "echo \"$(echo hi; echo hi)\""},
+		{"a", map[string]string{"a": "echo $(b)", "b": "c"}, "echo $(c)"},
+		{"echo $(foo bar)", map[string]string{"foo": "x ", "bar": "y"}, "echo $(x y)"},
+		{"echo $(echo foo)", map[string]string{"foo": "BOGUS"}, "echo $(echo foo)"},
+		{"foo $(foo)", map[string]string{"foo": "foo x"}, "foo x $(foo x)"},
 	} {
 		core.Do(c, c17Case{Src: d.src, Aliases: d.al, Plain: d.plain, Kind: "hand-written"}, c17Exec)
 	}
@@ -262,6 +270,11 @@ func c17Build(p *c17Prog, r *rand.Rand, variant int) (c17Case, bool) {
 				}
 			}
 		}
+		if strings.Count(text, w) != cmd+other {
+			// the name also occurs inside some word (a command substitution, where it
+			// may stand in command position too): not usable as an alias name here
+			return 99, 99
+		}
 		return
 	}
 	switch variant {
@@ -365,7 +378,7 @@ func c17Build(p *c17Prog, r *rand.Rand, variant int) (c17Case, bool) {
 		rs := []rune(w)
 		quoted := pick(r, []string{"'" + w + "'", `"` + w + `"`, `\` + w, string(rs[:1]) + "''" + string(rs[1:]), string(rs[:1]) + `\` + string(rs[1:]),
 			// the alias name followed by a quoted / expanded part: one word, not the alias
-			w + "''", w + `""`, w + "'x'", w + "$s", w + `\x`, w + `"$@"`, w + "${s}", w + "$(true)"})
+			w + "''", w + `""`, w + "'x'", w + "$s", w + `\x`, w + `"$@"`, w + "${s}", w + "$(:)"})
 		if len(rs) == 1 && len([]rune(quoted)) < 3 {
 			quoted = "'" + w + "'"
 		}
